@@ -19,6 +19,10 @@ RULE = (
     "thorough) for longer ones, 1 byte at a time, random, bufsize smaller than a chunk. distinct = blake2b(encoding, "
     "partition, bufsize); non-trivial = at least one receive boundary falls strictly inside the encoded stream"
 )
+RULE += (
+    ' Also: chunks with an empty decoded body, receive timeouts and other OSErrors between segments (every'
+    ' single cut followed by one), chunks of 4097..70000 bytes.'
+)
 ASSUMPTIONS = ["chunk extensions and trailers are not generated (well-formed bodies of the plain grammar)"]
 GATES = ["partitions_checked", "exhaustive_bodies", "cut:inside-size-digits", "cut:between-size-CR-and-LF",
          "cut:before-first-data-byte", "cut:inside-data", "cut:between-data-and-CR",
